@@ -159,3 +159,63 @@ def flag_states(g, flags, skip=("exc",)):
                     cur.add(out)
                     work.append(b)
     return IN, idx
+
+
+def expand_aliases(fn, expr, keep=()):
+    """Source of `expr` after replacing local names that have exactly one plain assignment `name = <call/attr/name>` in fn by
+    that value (e.g. num_blocks -> len(data_dict)); returns normalised text."""
+    count = {}
+    val = {}
+    for n in pyfront.walk_no_nested(fn):
+        if isinstance(n, ast.Assign) and len(n.targets) == 1 and isinstance(n.targets[0], ast.Name):
+            count[n.targets[0].id] = count.get(n.targets[0].id, 0) + 1
+            val[n.targets[0].id] = n.value
+        elif isinstance(n, (ast.AugAssign,)) and isinstance(n.target, ast.Name):
+            count[n.target.id] = count.get(n.target.id, 0) + 2
+        elif isinstance(n, (ast.For, ast.comprehension)):
+            for t in ast.walk(n.target):
+                if isinstance(t, ast.Name):
+                    count[t.id] = count.get(t.id, 0) + 2
+    params = {a.arg for a in fn.args.args}
+
+    class T(ast.NodeTransformer):
+        def visit_Name(self, node):
+            if isinstance(node.ctx, ast.Load) and count.get(node.id) == 1 and node.id not in keep and node.id not in params:
+                v = val[node.id]
+                if isinstance(v, ast.Call) and pyfront.call_name(v) in ("len", "int"):
+                    return copy.deepcopy(v)
+            return node
+
+    return norm(ast.unparse(T().visit(copy.deepcopy(expr))))
+
+
+def specialise(fn, flag, value):
+    """Copy of fn's body with every `if flag` / `if not flag` / `a if flag else b` resolved for flag == value."""
+    def truth(test):
+        if isinstance(test, ast.Name) and test.id == flag:
+            return value
+        if isinstance(test, ast.UnaryOp) and isinstance(test.op, ast.Not) and isinstance(test.operand, ast.Name) and test.operand.id == flag:
+            return not value
+        return None
+
+    class T(ast.NodeTransformer):
+        def visit_If(self, node):
+            self.generic_visit(node)
+            t = truth(node.test)
+            if t is None:
+                return node
+            body = node.body if t else node.orelse
+            return body or [ast.Pass()]
+
+        def visit_IfExp(self, node):
+            self.generic_visit(node)
+            t = truth(node.test)
+            if t is None:
+                return node
+            return node.body if t else node.orelse
+
+    f2 = copy.deepcopy(fn)
+    f2 = T().visit(f2)
+    ast.fix_missing_locations(f2)
+    # merge `else: if ...` produced by the substitution back into elif form is not needed: unparse is canonical
+    return f2
